@@ -14,15 +14,16 @@ RULE = ("Fault-free sub-batch: every command shape (read count 1..125, write, wr
         "AA55 device-info/runtime/settings blocks with payload length 0..255, AA55 register read, AA55 writes) x "
         "payload class {all-00, all-FF, walking, seeded random, high-sum} x comm address x optional trailing bytes "
         "after an RTU frame: the peer's conforming answer must be accepted on the FIRST transmission, the request must "
-        "complete at the delivery instant and response_data() must equal the served payload (prefix when trailing "
-        "bytes were appended).  Benign sub-batch: the same under loss within the retry budget, in-time delay, two "
+        "complete at the delivery instant and response_data() must equal the served payload exactly (also when "
+        "trailing bytes were appended: they do not belong to the payload).  Benign sub-batch: the same under loss within the retry budget, in-time delay, two "
         "fragments, duplication: success with the same payload.  Systematic part: all counts / lengths of the tier x "
         "payload classes; rest seeded.  Non-trivial: payload not all-zero or a benign fault fired; distinct: "
         "(framing, op, size, payload class, comm address, trailing, benign fault kinds).")
 ASSUMPTIONS = [
     "'conforming' = produced by the independent codec from the protocol descriptions (sim/codec.py); an AA55 "
     "checksum is the byte sum modulo 2^16 (two bytes on the wire)",
-    "with trailing bytes only the payload prefix is demanded (trim_response keeps them after the payload)",
+    "with trailing bytes 'exactly that payload' is demanded too; a result that is the payload followed by the CRC and "
+    "the trailing bytes (what trim_response's fixed [5:-2] slice yields) has its own key, which is a listed known finding",
 ]
 LEVEL_TEXT = ("Exploration with systematic coverage of the frame-shape space: the peer model emits conforming frames of "
               "every size with adversarial payload content; acceptance is observed end-to-end through the real "
@@ -99,7 +100,9 @@ def make_case(tier, seed, index):
             cmd = {"op": "read", "reg": rnd.randrange(65536 - 125), "count": rnd.randint(1, 125)}
         elif op == "write":
             cmd = {"op": "write", "reg": rnd.randrange(65536),
-                   "value": rnd.choice([0, 1, -1, -32768, 32767, 0x7F, 0x80, 0xFF, -256, rnd.randrange(-32768, 32768)])}
+                   "value": rnd.choice([0, 1, -1, -32768, 32767, 0x7F, 0x80, 0xFF, -256, rnd.randrange(-32768, 32768),
+                                        # the same 16-bit register contents given as unsigned numbers
+                                        32768, 40000, 65535, rnd.randrange(32768, 65536)])}
         else:
             cmd = {"op": "wmulti", "reg": rnd.randrange(65000),
                    "hex": payload_bytes(cl, 2 * rnd.randint(1, 123), rnd.randrange(1 << 16)).hex()}
@@ -258,9 +261,11 @@ def run_case(case):
                                    + (" (after an earlier request that lost a fragment tail)" if case.get("pre") else "")))
         if served is not None:
             data = rec["data"]
-            if case["trailing"]:
-                if not data.startswith(served):
-                    violations.append(viol(f"C02:payload:{fr}:{op}", f"response_data {data.hex()} does not start with served payload"))
+            if case["trailing"] and data != served and data.startswith(served) and \
+                    len(data) == len(served) + len(case["trailing"]) // 2:
+                violations.append(viol(f"C02:payload:{fr}:{op}:trailing-bytes-kept",
+                                       f"response_data is the {len(served)} byte payload followed by {len(data) - len(served)} "
+                                       f"bytes of checksum/trailing data ({data[len(served):].hex()})"))
             elif data != served:
                 violations.append(viol(f"C02:payload:{fr}:{op}", f"response_data {data.hex()} != served {served.hex()}"))
         if not benign:
